@@ -9,6 +9,9 @@ CLAIMED = {
  'C03': dict(cat='exploration', ref='5/C03', tech=SIM + 'legality/score oracle over recorded UCI history; stop placement, TT key-collision injection',
       text='Seeded search over sessions x schedules x fault plans (stop at arbitrary sim steps incl. inside iteration 1, injected 64-bit key collisions, allocation failure, helper interleavings for Threads 1..8). Every bestmove/ponder/pv/score line of every search is checked against the legal move lists of that search\'s root position. Evidence, not proof: sampling.',
       note="Trusted: repo MoveGen/TextIO for legality (C01 not decided here), synthetic evaluation networks, the UCI model in sim/uci_oracle.cpp."),
+ 'C04': dict(cat='exploration', ref='5/C04', tech=SIM + 'depth-limited full-strength searches with Threads 1..4 under seeded schedules; independent retrograde DTM oracle for <=4-man pawnless roots, exhaustive AND/OR solver for claims of mate in <= 3, explicit mate-in-one detection',
+      text='Every printed winning mate score (exact or lower bound) is checked: with the DTM oracle for <=4-man pawnless roots (true distance <= N), with an exhaustive solver when N <= 3 elsewhere (larger claims outside the tables are counted as unverified, never as passed); a bestmove delivered with a mate score must keep a forced mate; a final losing mate score of a completed search must be a real forced loss within N; if a mate in one exists every completed depth must end with mate 1 and a mating move (promotion, discovered, castling-rights and en-passant positions included).',
+      note='Threads > 1 is where the schedule matters (helpers store mate scores at other plies into the shared table). Trusted: dtm_oracle, the solver over the repo move generator (C01 not decided here). Evidence lists verified vs unverified claim counts.'),
  'C05': dict(cat='exploration', ref='5/C05', tech=SIM + 'reference model of the UCI session contract checked over the event-ordered history; plain and ASan/UBSan flavours',
       text='Grammar-generated command sequences (1..60 commands, any order, incl. before initialisation and during searches) released after virtual delays, sim-step counts or output patterns; oracle counts readyok/bestmove per isready/go in event order, enforces release rules for infinite/ponder, line grammar, no search output after bestmove, clean exit with all threads joined; crashes and sanitizer reports are violations.',
       note='Trusted: the UCI model (mirrors the dispatch on the first token), per-append stdout model (one append per stream insertion), step/node budgets for hang detection.'),
@@ -56,7 +59,7 @@ NA = {
  'C20': 'The constraint solver is a pure function of the constraint system (DESIGN.md section 6).',
 }
 PENDING = {}
-for pid in ['C04']:
+for pid in []:
     PENDING[pid] = 'check designed (DESIGN.md section 5) but not yet built/gated in this tree; not claimed until it passes its determinism and sensitivity gates'
 
 def main():
